@@ -81,9 +81,10 @@ Bytes legacy_sigops_script(Src& s, unsigned n)
     if (form == 1) b.push_back(0x6a);                             // after OP_RETURN: still counted by the static scan
     if (form == 2) { b.push_back(0x03); b.push_back(0xac); b.push_back(0xae); b.push_back(0xad); } // sigop bytes inside a push: not counted
     bool multisig = s.boolean();
+    unsigned mix = s.range<unsigned>(0, 3); // spelling pattern (few choice bytes even for 20,000 sigops)
     unsigned left = n;
-    if (multisig) { while (left >= 20) { b.push_back(s.boolean() ? 0xae : 0xaf); left -= 20; } }
-    while (left > 0) { b.push_back(s.boolean() ? 0xac : 0xad); left--; }
+    if (multisig) { while (left >= 20) { b.push_back((mix & 1) && (left % 40 == 0) ? 0xaf : 0xae); left -= 20; } }
+    while (left > 0) { b.push_back((mix & 2) && (left % 3 == 0) ? 0xad : 0xac); left--; }
     if (form == 3 || s.chance(64)) { b.push_back(0x4c); b.push_back(0x20); b.push_back(0xac); b.push_back(0xac); } // truncated push at the end: scan stops, bytes not counted
     return b;
 }
